@@ -182,6 +182,107 @@ pub fn pool_step(d: &mut Driver) {
 
 /// Pool-heavy history: many holders, many requests per pool and block on both sides, amounts over many magnitudes,
 /// plus directed situations (equal simultaneous deposits, withdraw everything, swaps on an emptied pool, drain attempts).
+
+/// Directed pool histories every swap job runs first: (1) a lopsided custom pool (1000 : 10), a swap on the scarce side, then the
+/// redemption of ONE liquidity token - which pays out zero on both sides - and of all the rest; (2) two large deposits (about 2^80 per
+/// side, with weights that share no small factor) into a fresh pool of two faucet tokens in ONE block, then both depositors redeem.
+pub fn lopsided_and_joint(d: &mut Driver, salt: u8) {
+    if d.net == NetID::Mainnet {
+        return;
+    }
+    let ta = Denom::Custom(TxHash(tmelcrypt::hash_single(&[b'a', salt])));
+    let tb = Denom::Custom(TxHash(tmelcrypt::hash_single(&[b'b', salt])));
+    let a = d.wal.address(CovKind::New(2));
+    let x1: u128 = ((1u128 << 40) + 1) * ((1u128 << 40) + 1);
+    let x2: u128 = 1u128 << 80;
+    let mut outs = vec![mk_coin(a, 2000, ta, &[]), mk_coin(a, 2000, ta, &[]), mk_coin(a, x1, ta, &[]), mk_coin(a, x1, tb, &[]), mk_coin(a, x2, ta, &[]), mk_coin(a, x2, tb, &[])];
+    for j in 0..12u128 {
+        outs.push(mk_coin(a, 50_000_000 + j, Denom::Mel, &[]));
+    }
+    outs.push(mk_coin(a, 5000, Denom::Sym, &[]));   // 18
+    let f = d.faucet(outs, 0, salt);
+    if !d.apply(&[f.clone()], 0, json!({"why": "holders of two faucet tokens"})) {
+        return;
+    }
+    let h = d.view().height;
+    let coin = |j: usize| (CoinID::new(f.hash_nosigs(), j as u8), CoinDataHeight { coin_data: f.outputs[j].clone(), height: h });
+    let to = d.wal.address(CovKind::New(1));
+    let amt = |den: Denom, v: u128| mk_coin(to, v, den, &[]);
+    // (1) lopsided pool
+    let k = PoolKey::new(Denom::Mel, ta);
+    let (kl, kr) = (k.left(), k.right());
+    let liq = k.liq_token_denom();
+    let dep = d.build(TxKind::LiqDeposit, &[coin(0), coin(6)], vec![amt(kl, 1000), amt(kr, 10)], 1, k.to_bytes().to_vec(), 0);
+    if let Some(dep) = dep {
+        d.apply(&[dep.clone()], 0, json!({"why": "lopsided pool 1000 : 10"}));
+        d.seal_next(Some(true));
+        if let Some(t) = d.build(TxKind::Swap, &[coin(1), coin(7)], vec![amt(kr, 10)], 1, k.to_bytes().to_vec(), 0) {
+            d.apply(&[t], 0, json!({"why": "swap of 10 on the scarce side"}));
+        }
+        d.seal_next(Some(false));
+        let held: Vec<_> = d.coins().into_iter().filter(|(c, x)| c.txhash == dep.hash_nosigs() && c.index == 0 && x.coin_data.denom == liq).collect();
+        if let Some(lc) = held.first().cloned() {
+            if let Some(split) = d.build(TxKind::Normal, &[lc.clone(), coin(8)], vec![amt(liq, 1)], 1, vec![], 0) {
+                if d.apply(&[split.clone()], 0, json!({"why": "split one liquidity token off"})) {
+                    let hh = d.view().height;
+                    let one = (CoinID::new(split.hash_nosigs(), 0), CoinDataHeight { coin_data: split.outputs[0].clone(), height: hh });
+                    if let Some(w) = d.build(TxKind::LiqWithdraw, &[one, coin(9)], vec![amt(liq, 1)], 0, k.to_bytes().to_vec(), 0) {
+                        d.apply(&[w], 0, json!({"why": "redeem ONE liquidity token of a lopsided pool (pays zero on both sides)"}));
+                    }
+                    d.seal_next(Some(true));
+                    let rest: Vec<_> = d.spendable().into_iter().filter(|(_, x)| x.coin_data.denom == liq && x.coin_data.value.0 > 1).collect();
+                    if let Some(rc) = rest.first().cloned() {
+                        if let Some(w) = d.build(TxKind::LiqWithdraw, &[rc.clone(), coin(10)], vec![amt(liq, rc.1.coin_data.value.0)], 0, k.to_bytes().to_vec(), 0) {
+                            d.apply(&[w], 0, json!({"why": "redeem all remaining liquidity tokens of the lopsided pool"}));
+                        }
+                        d.seal_next(Some(false));
+                    }
+                }
+            }
+        }
+    }
+    // requests whose outputs are sent to the destruction address never become coins: they are no requests
+    {
+        let ms = PoolKey::new(Denom::Mel, Denom::Sym);
+        let burn = |den: Denom, v: u128| mk_coin(Address::coin_destroy(), v, den, &[]);
+        let mut batch = vec![];
+        if let Some(t) = d.build(TxKind::Swap, &[coin(14)], vec![burn(Denom::Mel, 1000)], 1, ms.to_bytes().to_vec(), 0) {
+            batch.push(t);
+        }
+        if let Some(t) = d.build(TxKind::LiqDeposit, &[coin(15), coin(18)], vec![amt(ms.left(), 1000), burn(ms.right(), 1000)], 1, ms.to_bytes().to_vec(), 0) {
+            batch.push(t);
+        }
+        if let Some(t) = d.build(TxKind::LiqDeposit, &[coin(16)], vec![burn(Denom::Mel, 700), burn(Denom::Mel, 700)], 1, PoolKey::new(Denom::Mel, ta).to_bytes().to_vec(), 0) {
+            batch.push(t);
+        }
+        d.apply(&batch, 0, json!({"why": "a swap and two deposits whose (first / second / both) outputs go to the destruction address"}));
+        d.seal_next(Some(true));
+    }
+    // (2) two large deposits into a fresh pool in one block
+    let k2 = PoolKey::new(ta, tb);
+    let (l2, r2) = (k2.left(), k2.right());
+    let pick = |den: Denom, first: bool| -> usize { if den == ta { if first { 2 } else { 4 } } else if first { 3 } else { 5 } };
+    let mut batch = vec![];
+    for (first, x, feec) in [(true, x1, 11usize), (false, x2, 12usize)] {
+        if let Some(t) = d.build(TxKind::LiqDeposit, &[coin(pick(l2, first)), coin(pick(r2, first)), coin(feec)], vec![amt(l2, x), amt(r2, x)], 1, k2.to_bytes().to_vec(), 0) {
+            batch.push(t);
+        }
+    }
+    if batch.len() == 2 && d.apply(&batch, 0, json!({"why": "two deposits of (2^40+1)^2 and 2^80 per side into a fresh pool in one block"})) {
+        d.seal_next(Some(true));
+        let liq2 = k2.liq_token_denom();
+        for feec in [13usize] {
+            let held: Vec<_> = d.spendable().into_iter().filter(|(_, x)| x.coin_data.denom == liq2).collect();
+            if let Some(rc) = held.first().cloned() {
+                if let Some(w) = d.build(TxKind::LiqWithdraw, &[rc.clone(), coin(feec)], vec![amt(liq2, rc.1.coin_data.value.0)], 0, k2.to_bytes().to_vec(), 0) {
+                    d.apply(&[w], 0, json!({"why": "one of the two large depositors redeems"}));
+                }
+                d.seal_next(Some(true));
+            }
+        }
+    }
+}
+
 pub fn swap_history(out: &mut crate::Out, tag: &str, seed: u64, net: NetID, blocks: usize, big: bool, forged: bool) {
     use std::collections::BTreeMap;
     let mut d = Driver::new(out, tag, seed, net, 300, Denom::Mel, 1u128 << 70, 1 << 30, BTreeMap::new());
@@ -449,6 +550,9 @@ pub fn swap_history(out: &mut crate::Out, tag: &str, seed: u64, net: NetID, bloc
             }
             d.seal_next(None);
         }
+    }
+    if !forged {
+        lopsided_and_joint(&mut d, 201);
     }
     for b in 0..blocks {
         let nbatches = d.r.gen_range(1..=2);
